@@ -248,7 +248,11 @@ class C17(Harness):
                 c = Clf().fit(X3, np.array(labels[:nk]))
                 pred = c.predict(X3)
                 truth = np.array([labels[0]] * ni)
-                return {"pred": [v if isinstance(v, str) else S(v) for v in pred.tolist()], "score": float(c.score(X3, truth)), "classes": labels[:nk]}
+                import pandas as pd
+
+                # the same truth as a labelled Series whose row labels are not 0..n-1 (a fold of a larger data set)
+                score_series = float(c.score(X3, pd.Series(list(truth), index=list(range(5 + ni - 1, 4, -1)))))
+                return {"pred": [v if isinstance(v, str) else S(v) for v in pred.tolist()], "score": float(c.score(X3, truth)), "score_series_truth": score_series, "classes": labels[:nk]}
         finally:
             worlds.TOKEN_MODE[0] = False
         raise AssertionError(k)
@@ -361,6 +365,8 @@ class C17(Harness):
             pred_ok(out["pred"], proba, out["classes"])
             hits = sum(1 for q in out["pred"] if q == out["classes"][0])
             P.check("score-is-fraction-correct", abs(out["score"] - hits / ni) < 1e-12)
+            if "score_series_truth" in out:
+                P.check("score-is-fraction-correct", abs(out["score_series_truth"] - hits / ni) < 1e-12, {"what": "truth given as a Series with other row labels", "score": out["score_series_truth"]})
 
     def signature(self, label, inp, cell, detail=None):
         return "%s/%s" % (cell["kind"], label)
